@@ -48,6 +48,8 @@ registry! {
     h_count::h_count_twin,
     h_tls::h_tls,
     h_tls::h_tls_twin,
+    h_fmt::h_fmt_forward,
+    h_fmt::h_fmt_twin,
     #[cfg(feature = "cleaners")]
     h_clean::h_clean_n2,
     #[cfg(feature = "cleaners")]
